@@ -10,7 +10,7 @@ ID = 'C11'
 RULE = ('operation histories write^n fin^m, n in 0..3 (thorough 0..5), m in 1..4 (thorough 1..5), every sequence of '
         'finalisations drawn from {close(), bare context-manager exit, a further `with writer: pass` block} exhaustively, for VbsWriter and IpmWriter, blocked and '
         'unblocked, on io.BytesIO and on real files in a private temporary directory; non-trivial = distinct history with '
-        'at least one record or two finalisations')
+        'at least one record or two finalisations; plus random histories in which the caller moves the wrapped file object (seek) between finalisations')
 EXHAUSTIVE = {'quick': True, 'thorough': True}
 ASSUMPTIONS = ['writes after a close and closing the wrapped file object directly are outside the property']
 MSG = {'MTI': '1144', 'DE2': '4444555566667777', 'DE3': '111111', 'DE4': 9999, 'DE48': '0002003abc'}
@@ -30,6 +30,18 @@ def gen(rng, tier):
                             lens = [[5], [1010, 3], [1004, 1008, 7], [1, 2, 3, 4, 5][:n]][min(n, 3)][:n] if n else []
                             lens = (lens + [17] * n)[:n]
                             cases.append({'cls': cls, 'lens': lens, 'fins': ''.join(fins), 'blocked': blocked, 'medium': medium, 'seed': 7 * n + m})
+    # the caller uses the wrapped file object between finalisations (seek / read move its position); the writer must not
+    # write anything on a later finalisation wherever the stream then stands
+    for i in range(120 if tier == 'quick' else 2000):
+        lens = rng.choice([[5], [1010, 3], [1500, 700], [1004, 1008, 7], [300] * 8, [1012], [1008]])
+        toks = [rng.choice('CXR')]
+        for _ in range(rng.randint(1, 4)):
+            toks.append(rng.choice(['C', 'X', 'R', 'T%d' % rng.choice([0, 1, 4, 1012, 1014, 1015, 2028, 3000, rng.randrange(0, 2500)])]))
+        if not any(t.startswith('T') for t in toks):
+            toks.insert(1, 'T%d' % rng.choice([4, 1014, 2028]))
+        if toks[-1].startswith('T'):
+            toks.append(rng.choice('CXR'))
+        cases.append({'cls': ['vbs', 'ipm'][i % 2], 'lens': lens, 'fins': toks, 'blocked': i % 4 < 3, 'medium': 'mem' if i % 5 else 'disk', 'seed': i, 'touch': True})
     return cases
 
 
@@ -61,7 +73,9 @@ def run_history(case, fins):
         for r in rs:
             w.write(dict(r) if isinstance(r, dict) else r)
         for x in fins:
-            if x == 'C':
+            if x.startswith('T'):          # the caller moves the wrapped file's position (f.seek / a read)
+                f.seek(int(x[1:]))
+            elif x == 'C':
                 w.close()
             elif x == 'X':
                 w.__exit__(None, None, None)
@@ -98,6 +112,8 @@ def model_lines(case, io_):
     if case['cls'] != 'vbs':
         return []
     rs = recs(case)
+    if case.get('touch'):
+        return ['vbs_write2 %s %s' % ('1' if case['blocked'] else '0', ','.join(['W' + (r.hex() or '_') for r in rs] + [('X' if x == 'R' else x) for x in case['fins']]))]
     return ['vbs_write %s %s' % ('1' if case['blocked'] else '0', ','.join(['W' + (r.hex() or '_') for r in rs] + [('X' if x == 'R' else x) for x in case['fins']]))]
 
 
@@ -128,4 +144,4 @@ def nontrivial(case, io_):
 
 
 def label(case):
-    return '%s/%s/%s/n=%d/m=%d' % (case['cls'], '1014' if case['blocked'] else 'vbs', case['medium'], len(case['lens']), len(case['fins']))
+    return '%s/%s/%s/n=%d/m=%d%s' % (case['cls'], '1014' if case['blocked'] else 'vbs', case['medium'], len(case['lens']), len(case['fins']), '/touch' if case.get('touch') else '')
